@@ -22,6 +22,7 @@ import (
 	"time"
 
 	pb "github.com/xuperchain/xupercore/bcs/ledger/xledger/xldgpb"
+	"github.com/xuperchain/xupercore/protos"
 
 	"verif/gen"
 	"verif/memkv"
@@ -226,6 +227,48 @@ func producerRound(rng *rand.Rand, idx int, receiver bool) (rep producerReport) 
 			}
 		}(c)
 	}
+	// a client that pre-executes contract calls on the LIVE node (the engine's real Chain.PreExec, next
+	// to the blocks), assembles and submits them: each is acknowledged or refused, never half done
+	var liveSubs []*sub
+	var liveMu sync.Mutex
+	wg.Add(1)
+	go func() {
+		defer wg.Done()
+		<-start
+		lr := rand.New(rand.NewSource(int64(idx)*31 + 5))
+		for i := 0; i < 8; i++ {
+			k := sn.K(lr.Intn(6))
+			b := gen.Buckets[lr.Intn(len(gen.Buckets))]
+			key := []byte(gen.KeyNames[lr.Intn(len(gen.KeyNames))])
+			p := &sn.ProgBuilder{}
+			switch lr.Intn(3) {
+			case 0:
+				p.Get(b, key).Put(b, key, []byte(fmt.Sprintf("live%d-%d", idx, i)))
+			case 1:
+				p.Scan(b, []byte("a"), []byte("z"), -1).Put(b, key, []byte("s"))
+			default:
+				p.Get(b, key).Del(b, key)
+			}
+			res, err := n.PreExec([]*protos.InvokeRequest{sn.VerifReq(sn.VerifContract, p.String())}, k.Address, []string{k.Address})
+			if err != nil {
+				continue
+			}
+			x, err := sn.BuildTx(sn.TxSpec{Initiator: k.Address, Signers: []*sn.Key{k}, Nonce: fmt.Sprintf("live%d-%d", idx, i), Timestamp: int64(3000 + i),
+				InExt: res.Inputs, OutExt: res.Outputs, Requests: res.Requests})
+			if err != nil {
+				continue
+			}
+			s := &sub{tx: x}
+			if err := n.SubmitTx(sn.CloneTx(x)); err == nil {
+				s.ack = true
+			} else {
+				s.err = err.Error()
+			}
+			liveMu.Lock()
+			liveSubs = append(liveSubs, s)
+			liveMu.Unlock()
+		}
+	}()
 	// queries
 	var queries int64
 	wg.Add(1)
@@ -306,6 +349,7 @@ func producerRound(rng *rand.Rand, idx int, receiver bool) (rep producerReport) 
 		}
 	}
 	ackd := map[string]bool{}
+	streams = append(streams, liveSubs)
 	for _, st := range streams {
 		for _, s := range st {
 			if s.ack {
